@@ -15,15 +15,22 @@ use serde_json::{json, Value};
 
 async fn run(mut sim: Sim, seed: u64) -> Result<Value, String> {
     let keys = sim::sorted_keys(2, &mut sim.rng);
-    let variant = (seed % 12) as usize;
+    let variant = (seed % 13) as usize;
     // node 0 is dialed (listener), node 1 dials; the odd setting goes to `odd_side`
-    let odd_side = ((seed / 12) % 2) as usize;
+    let odd_side = ((seed / 13) % 2) as usize;
     let mut names = Vec::new();
     for (i, k) in keys.iter().enumerate() {
         let mut c = base_config();
         quic(&mut c).max_idle_timeout_ms = Some(8_000);
         quic(&mut c).keep_alive_interval_ms = Some(2_000);
         let mut name = "plain";
+        if variant == 12 {
+            // keep-alive intervals above the idle timeout (they never get to fire; QUIC applies the
+            // smaller of the two ends' idle timeouts): the idle timeout that was configured is the one
+            // that applies
+            quic(&mut c).max_idle_timeout_ms = Some(3_000);
+            quic(&mut c).keep_alive_interval_ms = Some(if i == odd_side { 4_000 } else { 3_000 });
+        }
         if i == odd_side {
             name = match variant {
                 // a node that is only ever dialed needs no incoming uni stream (it sends the ack)
@@ -39,6 +46,7 @@ async fn run(mut sim: Sim, seed: u64) -> Result<Value, String> {
                 8 => { quic(&mut c).crypto_buffer_size = Some(4_096); "small-crypto-buffer" }
                 9 => { quic(&mut c).socket_send_buffer_size = Some(65_536); quic(&mut c).socket_receive_buffer_size = Some(65_536); "socket-buffers" }
                 10 => { c.max_concurrent_connections = Some(1); "limit-1" }
+                12 => "keep-alive-above-the-idle-timeout",
                 _ => { c.max_frame_size = Some(1 << 20); quic(&mut c).max_concurrent_uni_streams = Some(3); "frame-limit-and-3-uni" }
             };
         }
@@ -65,7 +73,23 @@ async fn run(mut sim: Sim, seed: u64) -> Result<Value, String> {
         for h in hs {
             let _ = tokio::time::timeout(std::time::Duration::from_secs(900), h).await;
         }
-        if round == 0 {
+        if round == 0 && variant == 12 {
+            // the pair is cut off without a word: each side has reported the other lost when its own
+            // (configured) idle timeout has passed; then the link is back and they connect again
+            sim.run.fabric.partition(sim.addr(0), sim.addr(1));
+            sim.run.obs(-1, "obs.fault", json!({"a": 0, "b": 1, "what": "silent"}));
+            let since = sim.run.now_ms();
+            settle(&mut sim, 3_000 + 2_500).await;
+            for (a, b) in [(0usize, 1usize), (1, 0)] {
+                let listed = sim.net(a).peers().contains(&sim.peer_id(b));
+                sim.run.obs(a as i64, "obs.silent_end", json!({"other": b, "since": since, "listed": listed}));
+            }
+            sim.run.fabric.heal_all();
+            sim.run.obs(-1, "obs.fault", json!({"what": "healed"}));
+            settle(&mut sim, 4_000).await;
+            sim.connect(1, sim.addr(0), expect).await.map_err(|e| format!("VIOLATION: reconnecting after the cut failed: {e}"))?;
+            settle(&mut sim, 50).await;
+        } else if round == 0 {
             // an idle period longer than the idle timeout: a keep-alive on either side keeps it up
             settle(&mut sim, 12_000).await;
             sim.obs_all_peers();
